@@ -1,6 +1,6 @@
 import WebAuthnModel.Basic.Bytes
 /-
-  Go's `encoding/asn1` (go1.26) as the repository uses it: `asn1.Unmarshal` / `asn1.Marshal` of structs whose
+  Go's `encoding/asn1` (the sandbox's default toolchain, go1.23) as the repository uses it: `asn1.Unmarshal` / `asn1.Marshal` of structs whose
   members are `int`, `asn1.Enumerated`, `asn1.Flag`, `bool`, `[]byte`, `[]int` (SET OF / SEQUENCE OF INTEGER) or
   another such struct, untagged or `tag:N,explicit`, `optional` or not.  The decoder is the *cursor* algorithm of
   `parseField`: one pass over the struct's members in declaration order; an optional member whose tag does not match
